@@ -76,8 +76,48 @@ let col_name = function
   | 0 -> "name" | 1 -> "flags" | 2 -> "rname" | 3 -> "pos" | 4 -> "mapq" | 5 -> "cigar" | 6 -> "rnext"
   | 7 -> "pnext" | 8 -> "tlen" | 9 -> "seq" | 10 -> "qual" | _ -> "data"
 
+(* ---- header encoding: HD SQ RG PG CO *)
+let dec_others parts =
+  List.map (fun p -> match split_on '=' p with
+    | [t; v] -> let tb = bytes_of_hex t in ((List.nth tb 0, List.nth tb 1), bytes_of_hex v)
+    | _ -> failwith "other") parts
+
+let enc_others l =
+  String.concat "" (List.map (fun ((t0, t1), v) -> ";" ^ hex_of_bytes [t0; t1] ^ "=" ^ hex_of_bytes v) l)
+
+let dec_header (a : string array) : header =
+  let hd = if a.(0) = "-" then None else begin
+    let parts = split_on ';' a.(0) in
+    match split_on '.' (List.hd parts) with
+    | [ma; mi] -> Some { hd_major = n_of_dec ma; hd_minor = n_of_dec mi; hd_other = dec_others (List.tl parts) }
+    | _ -> failwith "hd" end in
+  let items s = if s = "~" then [] else split_on '|' s in
+  let sq = List.map (fun it ->
+    let parts = split_on ';' it in
+    match split_on ':' (List.hd parts) with
+    | [n; l] -> { sq_name = bytes_of_hex n; sq_len = n_of_dec l; sq_other = dec_others (List.tl parts) }
+    | _ -> failwith "sq") (items a.(1)) in
+  let idm s = List.map (fun it ->
+    let parts = split_on ';' it in
+    { im_id = bytes_of_hex (List.hd parts); im_other = dec_others (List.tl parts) }) (items s) in
+  let co = if a.(4) = "~" then [] else List.map bytes_of_hex (split_on ',' a.(4)) in
+  { h_hd = hd; h_sq = sq; h_rg = idm a.(2); h_pg = idm a.(3); h_co = co }
+
+let enc_header (h : header) : string =
+  let j l sep = if l = [] then "~" else String.concat sep l in
+  String.concat " " [
+    (match h.h_hd with None -> "-" | Some m -> dec_of_n m.hd_major ^ "." ^ dec_of_n m.hd_minor ^ enc_others m.hd_other);
+    j (List.map (fun m -> hex_of_bytes m.sq_name ^ ":" ^ dec_of_n m.sq_len ^ enc_others m.sq_other) h.h_sq) "|";
+    j (List.map (fun m -> hex_of_bytes m.im_id ^ enc_others m.im_other) h.h_rg) "|";
+    j (List.map (fun m -> hex_of_bytes m.im_id ^ enc_others m.im_other) h.h_pg) "|";
+    j (List.map hex_of_bytes h.h_co) "," ]
+
 let handle kind a =
   match kind with
+  | "wh" ->
+      (match write_header (dec_header a) with Some t -> Some (hex_of_bytes t) | None -> Some "Err")
+  | "ph" ->
+      (match read_header (bytes_of_hex a.(0)) with Some h -> Some (enc_header h) | None -> Some "Err")
   | "wr" ->
       let refs = refs_of a.(0) in
       let ft = table a.(1) and dt = table a.(2) in
